@@ -328,7 +328,8 @@ def execute(case):
                                                 op='chunks'))
                     continue
                 for mode, tf in (('lazy', lazy), ('eager', eager)):
-                    v, g_, exc = _lazy.check_op(tf, w, op, fl, 'C13.window', mode, keeper=keeper)
+                    v, g_, exc = _lazy.check_op(tf, w, op, fl, 'C13.window', mode, res=res, keeper=keeper,
+                                                scribble=(mode == 'lazy' and i % 3 == 0))
                     if v is not None:
                         res.violations.append(v)
                 if len(res.violations) > 3:
